@@ -263,6 +263,9 @@ func (fc *FnCtx) autoInline(st *State, call *ast.CallExpr, fn *types.Func, pkgPa
 		if isNamed(pt, "regexp", "Regexp") {
 			continue // compiled patterns are immutable
 		}
+		if sortOf(pt) == SRec {
+			continue // accepted when the body leaves the record (and what it reaches) untouched: checked below
+		}
 		if !valueSort(pt) {
 			return nil, false
 		}
@@ -358,9 +361,40 @@ func (fc *FnCtx) autoInline(st *State, call *ast.CallExpr, fn *types.Func, pkgPa
 		base := work.clone()
 		return fc.execBlock(work, site.decl.Body.List), base
 	}
+	// records handed in by reference: the body must not write them (nor anything they reach)
+	recRoots := map[string]bool{}
+	var addRoot func(v Val)
+	addRoot = func(v Val) {
+		if (v.S == SRec || v.S == SMap || v.S == SBuf) && v.Rec != "" && !recRoots[v.Rec] {
+			recRoots[v.Rec] = true
+			for k, fv := range st.env {
+				if strings.HasPrefix(k, v.Rec+".") {
+					addRoot(fv)
+				}
+			}
+		}
+	}
+	for _, a := range args {
+		addRoot(a)
+	}
+	underRoot := func(k string) bool {
+		for r := range recRoots {
+			if strings.HasPrefix(k, r+".") || k == r {
+				return true
+			}
+		}
+		return false
+	}
 	acceptable := func(outs []Outcome, base *State) bool {
 		if len(outs) == 0 || len(outs) > 16 {
 			return false
+		}
+		for _, o := range outs {
+			for k := range o.St.env {
+				if _, had := base.env[k]; !had && underRoot(k) {
+					return false // a field of a record of the caller was written (or havoc'd)
+				}
+			}
 		}
 		for _, o := range outs {
 			if o.Kind != OReturn && o.Kind != ONormal {
